@@ -2,7 +2,8 @@
 primitives behave as Basic/Time.lean and Model/Heartbeat.lean say.
 
 (1) OUTSIDE the primitives (every src/*.cpp, src/*.h except N2kTimer.h / N2kTimer.cpp) the translator finds every SITE where a
-time value is an operand of a relational operator (< > <= >= == !=), of a binary + or - (also += -=), or is assigned an integer
+time value is an operand of a relational operator (< > <= >= and == != against anything that is not itself a time value; an (in)equality test between two stamps is
+origin independent and only counted), of a binary + or - (also += -=), or is assigned an integer
 literal (an absolute stamp). A time value is: a clock read N2kMillis() / N2kMillis64() / millis(), a call of a getter whose name
 is time-like, an identifier declared with an integer type and a time-like name, or a local initialised / assigned from one of
 those (its class is inherited: `const unsigned long CurTime=N2kMillis()` is the clock, `SlotMsgTime=...MsgTime` is MsgTime).
@@ -258,6 +259,7 @@ def scan(src):
     texts = {os.path.basename(f): strip_preproc(strip_comments(open(f, errors='replace').read())) for f in files}
     gids = global_time_identifiers(texts)
     sites, reads, stored_reads = [], 0, 0
+    equal_tests = [0]
     for fn, text in texts.items():
         toks = tokens(text)
         nreads = sum(1 for i, t in enumerate(toks) if t in CLOCKS and i + 1 < len(toks) and toks[i + 1] == '(' and (i == 0 or toks[i - 1] not in ('uint32_t', 'uint64_t', 'long')))
@@ -277,6 +279,9 @@ def scan(src):
                         continue
                     lo, ro = left_operand(body, i), right_operand(body, i)
                     cl = cls.of(lo) | cls.of(ro)
+                    if t in ('==', '!=') and cls.of(lo) and cls.of(ro):
+                        equal_tests[0] += 1        # (in)equality of two stamps is origin independent: counted, not a site
+                        continue
                     if cl:
                         sites.append((fn, fname, 'rel' if t in REL else 'arith', tuple(sorted(cl))))
                         if 'clock' in cls.of([x for x in lo + ro if x in CLOCKS or x == '(']):
@@ -288,7 +293,7 @@ def scan(src):
                     if cl and lo and lo[-1] in cls.map:
                         sites.append((fn, fname, 'const', tuple(sorted(cl))))
         stored_reads += max(nreads - direct, 0)
-    return sites, {'clock_reads': reads, 'clock_reads_stored_or_passed_outside_primitives': stored_reads, 'time_identifiers': sorted(gids)}
+    return sites, {'clock_reads': reads, 'clock_reads_stored_or_passed_outside_primitives': stored_reads, 'equality_tests_between_two_time_values': equal_tests[0], 'time_identifiers': sorted(gids)}
 
 
 def key(s):
